@@ -548,17 +548,25 @@ Definition numeric_literal_spec (s : ustr) (strict : bool) : lit_res :=
       match s with
       | 48 :: c :: _ =>
           if is_digit c then
-            (* LegacyOctalIntegerLiteral / NonOctalDecimalIntegerLiteral: sloppy mode only, no separators *)
-            if strict || has_sep s then LSyntaxError else
+            (* LegacyOctalIntegerLiteral / NonOctalDecimalIntegerLiteral: sloppy mode only, no separators in the
+               integer part; a NonOctalDecimalIntegerLiteral may continue as a DecimalLiteral (fraction, exponent,
+               where separators are allowed again) *)
+            if strict then LSyntaxError else
             let (head, rest) := break_at (fun c => negb (is_digit c)) s in
             if all_octal head then
               match rest, all_radix_digits 8 head with
               | [], Some ds => LNum (round_nneg (num_of 8 ds) 1)
               | _, _ => LSyntaxError
               end
-            else match scan_decimal s with
-                 | Some (m, e, []) => LNum (dec_value false m e)
-                 | _ => LSyntaxError
+            else match rest with
+                 | 95 :: _ => LSyntaxError
+                 | _ => match decimal_literal (49 :: rest) with
+                        | LSyntaxError => LSyntaxError
+                        | LNum _ => match scan_decimal (filter (fun c => negb (c =? 95)) s) with
+                                    | Some (m, e, []) => LNum (dec_value false m e)
+                                    | _ => LSyntaxError
+                                    end
+                        end
                  end
           else decimal_literal s
       | _ => decimal_literal s
